@@ -20,11 +20,11 @@ def run(ctx):
         "traces_validated_against_impl": len(cases),
         "events_validated": n,
         "evaluations": nops,
-        "distinct_nontrivial": len({vlib.json.dumps([c["scheme"], s], sort_keys=True) for c in cases for s in c["steps"]}),
+        "distinct_nontrivial": len({vlib.json.dumps([c["scheme"], s], sort_keys=True) for c in cases for s in c.get("steps", [c])}),
         "rule": "evaluations = key-blinding operations executed (Blind, Unblind, BlindKeySign, Sign, Verify by both verifiers) on four "
                 "curves; distinct = distinct (curve, operation, arguments)",
         "operations": ops,
-        "samples": [vlib.trim({"scheme": c["scheme"], "kind": c["kind"], "steps": c["steps"][:6]}) for c in vlib.sample(cases, 2)],
+        "samples": [vlib.trim({"scheme": c["scheme"], "kind": c["kind"], "steps": c.get("steps", [])[:6]}) for c in vlib.sample(cases, 2)],
         "exhaustive": False,
         "exhaustive_part": "laws over all key terms of the bounded depth on the specification; structured sequence covers every (signing key, blind, context) of the pools",
     }, [
